@@ -325,10 +325,101 @@ MAP_UNITS3 = [
          ),
 ]
 
+
+_OE = r"impl<'a, K> OccupiedEntry<'a, K>\s*\{"
+_VE = r"impl<'a, K> VacantEntry<'a, K>\s*\{"
+MAP_UNITS4 = [
+    dict(id='U-qmap.entry', file=F, fn='entry', ctx=_Q, wrap='impl Qualifiers', properties=['C11', 'C05', 'C02'],
+         contract="""        requires old(self).wf()
+        ensures
+            !valid_key(key.text()) ==> r is Err && r->Err_0 is InvalidQualifier && final(self).qualifiers@ == old(self).qualifiers@,
+            valid_key(key.text()) ==> r is Ok && match r->Ok_0 {
+                Entry::Occupied(o) => o.wf() && *o.qualifiers == old(self).qualifiers && *final(o.qualifiers) == final(self).qualifiers
+                    && o.index == pos_of(old(self).qualifiers@, lower_ascii_seq(key.text()))
+                    && old(self).qualifiers@[o.index as int].0.0@ == lower_ascii_seq(key.text()),
+                Entry::Vacant(v) => v.wf() && *v.qualifiers == old(self).qualifiers && *final(v.qualifiers) == final(self).qualifiers
+                    && v.index == pos_of(old(self).qualifiers@, lower_ascii_seq(key.text()))
+                    && v.key.text() == key.text()
+                    && !has_key(old(self).qualifiers@, lower_ascii_seq(key.text())),
+            },""",
+         ),
+    dict(id='U-qmap.VacantEntry.insert', file=F, fn='insert', ctx=_VE, wrap="impl<'a, K: AsRef<str>> VacantEntry<'a, K>",
+         properties=['C11', 'C04', 'C02'],
+         contract="""        requires self.wf()
+        ensures
+            <SmallString as vstd::std_specs::convert::FromSpec<V>>::obeys_from_spec() ==>
+                *r == <SmallString as vstd::std_specs::convert::FromSpec<V>>::from_spec(value),
+            wf_seq(final(self.qualifiers)@),
+            final(self.qualifiers)@.len() == old(self.qualifiers)@.len() + 1,
+            final(self.qualifiers)@[self.index as int].0.0@ == self.key.canon(),
+            final(self.qualifiers)@ == old(self.qualifiers)@.insert(self.index as int, (final(self.qualifiers)@[self.index as int].0, *final(r))),""",
+         hints=[(r'self\.qualifiers\.insert\(self\.index, \(self\.key\.into_key\(\), SmallString::from\(value\)\)\);', 'before',
+                 '        let ghost old_v = self.qualifiers@;\n        let ghost ix = self.index as int;\n        let ghost kt = self.key.canon();'),
+                (r'self\.qualifiers\.insert\(self\.index, \(self\.key\.into_key\(\), SmallString::from\(value\)\)\);', 'after',
+                 """        proof {
+            lemma_insert_keeps_wf(old_v, ix, self.qualifiers@[ix]);
+            let mid = self.qualifiers@;
+            assert forall|x: SmallString| wf_seq(#[trigger] mid.update(ix, (mid[ix].0, x))) by { lemma_update_value_keeps_wf(mid, ix, x); }
+            assert forall|x: SmallString| {
+                let w = #[trigger] mid.update(ix, (mid[ix].0, x));
+                w == old_v.insert(ix, (w[ix].0, x))
+            } by { assert(mid.update(ix, (mid[ix].0, x)) =~= old_v.insert(ix, (mid[ix].0, x))); }
+        }""")]),
+    dict(id='U-qmap.OccupiedEntry.remove_entry', file=F, fn='remove_entry', ctx=_OE, wrap="impl<'a, K> OccupiedEntry<'a, K>",
+         properties=['C11'],
+         contract="""        requires self.wf()
+        ensures wf_seq(final(self.qualifiers)@), final(self.qualifiers)@ == old(self.qualifiers)@.remove(self.index as int),
+            r.0 == old(self.qualifiers)@[self.index as int].0.0, r.1 == old(self.qualifiers)@[self.index as int].1""",
+         begin='        proof { lemma_remove_keeps_wf(self.qualifiers@, self.index as int); }'),
+    dict(id='U-qmap.OccupiedEntry.get', file=F, fn='get', ctx=_OE, wrap="impl<'a, K> OccupiedEntry<'a, K>", properties=['C11'],
+         contract="""        requires self.wf()
+        ensures r@ == old(self.qualifiers)@[self.index as int].1@"""),
+    dict(id='U-qmap.OccupiedEntry.get_mut', file=F, fn='get_mut', ctx=_OE, wrap="impl<'a, K> OccupiedEntry<'a, K>", properties=['C11'],
+         contract="""        requires old(self).wf()
+        ensures *r == old(self).qualifiers@[old(self).index as int].1, final(self).index == old(self).index,
+            final(self).qualifiers@ == old(self).qualifiers@.update(old(self).index as int, (old(self).qualifiers@[old(self).index as int].0, *final(r))),
+            final(self).wf()""",
+         begin="""        proof { let v = self.qualifiers@; let ix = self.index as int;
+            assert forall|x: SmallString| wf_seq(#[trigger] v.update(ix, (v[ix].0, x))) by { lemma_update_value_keeps_wf(v, ix, x); } }"""),
+    dict(id='U-qmap.OccupiedEntry.into_mut', file=F, fn='into_mut', ctx=_OE, wrap="impl<'a, K> OccupiedEntry<'a, K>", properties=['C11'],
+         contract="""        requires self.wf()
+        ensures *r == old(self.qualifiers)@[self.index as int].1,
+            final(self.qualifiers)@ == old(self.qualifiers)@.update(self.index as int, (old(self.qualifiers)@[self.index as int].0, *final(r))),
+            wf_seq(final(self.qualifiers)@)""",
+         begin="""        proof { let v = self.qualifiers@; let ix = self.index as int;
+            assert forall|x: SmallString| wf_seq(#[trigger] v.update(ix, (v[ix].0, x))) by { lemma_update_value_keeps_wf(v, ix, x); } }"""),
+    dict(id='U-qmap.OccupiedEntry.insert', file=F, fn='insert', ctx=_OE, wrap="impl<'a, K> OccupiedEntry<'a, K>", properties=['C11'],
+         contract="""        requires old(self).wf()
+        ensures final(self).wf(), final(self).index == old(self).index,
+            r == old(self).qualifiers@[old(self).index as int].1,
+            <SmallString as vstd::std_specs::convert::FromSpec<V>>::obeys_from_spec() ==>
+                final(self).qualifiers@ == old(self).qualifiers@.update(old(self).index as int,
+                    (old(self).qualifiers@[old(self).index as int].0, <SmallString as vstd::std_specs::convert::FromSpec<V>>::from_spec(value))),""",
+         hints=[(r'mem::swap\(&mut v, &mut self\.qualifiers\[self\.index\]\.1\);', 'after',
+                 '        proof { lemma_update_value_keeps_wf(old(self).qualifiers@, self.index as int, self.qualifiers@[self.index as int].1);\n'
+                 '            assert(self.qualifiers@ =~= old(self).qualifiers@.update(self.index as int, (old(self).qualifiers@[self.index as int].0, self.qualifiers@[self.index as int].1))); }')]),
+    dict(id='U-qmap.OccupiedEntry.remove', file=F, fn='remove', ctx=_OE, wrap="impl<'a, K> OccupiedEntry<'a, K>", properties=['C11'],
+         contract="""        requires self.wf()
+        ensures wf_seq(final(self.qualifiers)@), final(self.qualifiers)@ == old(self.qualifiers)@.remove(self.index as int),
+            r == old(self.qualifiers)@[self.index as int].1""",
+         begin='        proof { lemma_remove_keeps_wf(self.qualifiers@, self.index as int); }'),
+    dict(id='U-qmap.get_mut', file=F, fn='get_mut', ctx=_Q, wrap='impl Qualifiers', properties=['C11'],
+         contract="""        requires old(self).wf()
+        ensures
+            final(self).wf(),
+            r is Some == (valid_key(key.text()) && has_key(old(self).qualifiers@, lower_ascii_seq(key.text()))),
+            r is None ==> final(self).qualifiers@ == old(self).qualifiers@,
+            r is Some ==> ({
+                let p = pos_of(old(self).qualifiers@, lower_ascii_seq(key.text()));
+                0 <= p < old(self).qualifiers@.len() && *(r->Some_0) == old(self).qualifiers@[p].1
+                && final(self).qualifiers@ == old(self).qualifiers@.update(p, (old(self).qualifiers@[p].0, *final(r->Some_0)))
+            }),"""),
+]
+
 GROUP = dict(
     name='qual',
     theory=['base.rs'],
-    uses='use core::cmp::Ordering;\nuse core::marker::PhantomData;',
+    uses='use core::cmp::Ordering;\nuse core::marker::PhantomData;\nuse core::mem;',
     canary='    axiom_string_from(); broadcast use axiom_ascii_to_lower; broadcast use axiom_view_of_str; axiom_from_keeps_text::<&str>();',
-    units=[_c.PURL_FIELD, _c.PARSE_ERROR, _c.QUALIFIER_KEY, _c.QUALIFIERS] + KEY_UNITS + CMP_UNITS + MAP_UNITS + MAP_UNITS2 + MAP_UNITS3,
+    units=[_c.PURL_FIELD, _c.PARSE_ERROR, _c.QUALIFIER_KEY, _c.QUALIFIERS] + KEY_UNITS + CMP_UNITS + MAP_UNITS + MAP_UNITS2 + MAP_UNITS3 + MAP_UNITS4,
 )
